@@ -8,6 +8,7 @@ import (
 	"net"
 	"net/netip"
 	"sort"
+	"strings"
 
 	"harness/core"
 	"harness/env"
@@ -502,7 +503,11 @@ func keys(m map[byte][]byte) []int {
 }
 
 func (x *c03ctx) dnsQuery(id, flags uint16, labels []string, qtype uint16) {
-	rp := c03Replay{Kind: "dns", Args: []int{int(id), int(flags), len(labels), int(qtype), len(labels[0])}}
+	ll0 := 0
+	if len(labels) > 0 {
+		ll0 = len(labels[0])
+	}
+	rp := c03Replay{Kind: "dns", Args: []int{int(id), int(flags), len(labels), int(qtype), ll0}}
 	x.try("DNSQuery", rp, func() {
 		name := ""
 		for i, l := range labels {
@@ -532,6 +537,11 @@ func (x *c03ctx) dnsQuery(id, flags uint16, labels []string, qtype uint16) {
 		d := packet.DNS(q)
 		if d.IsValid() != nil || d.TransactionID() != id || d.QDCount() != 1 {
 			x.fail("roundtrip-lib|DNSQuery", "library getters disagree", rp)
+		}
+		question, _, derr := packet.DecodeQuestion(d, 12, make([]byte, 0, 256))
+		got := strings.TrimSuffix(string(question.Name), ".")
+		if derr != nil || got != name || question.Type != qtype || question.Class != 1 {
+			x.fail("roundtrip-lib|DNSQuery-question", fmt.Sprintf("DecodeQuestion of the encoded query gives name=%q type=%d class=%d err=%v, supplied name=%q type=%d", trunc(question.Name, 40), question.Type, question.Class, derr, trunc([]byte(name), 40), qtype), rp)
 		}
 	})
 }
@@ -639,7 +649,7 @@ func (x *c03ctx) composed(st *c01State, v6 bool, sp, dp uint16, n int) {
 
 func c03Run(c *core.Ctx, args []string) {
 	c.Res.Level = "exploration"
-	c.Res.Rule = "cartesian products of boundary alphabets: 4 MACs, 4 IPv4, 4 IPv6 addresses, {0,1,255,256,65535} for ports/ids/seq, ttl {0,1,64,255}, xid 4 values, every payload length 0..64 and the MTU boundary set (thorough: 0..300), buffer capacity {minimum-1, minimum, minimum+payload-1, minimum+payload, EthMaxSize} carved from a guarded array, Set and Append variants; ARP op x address pairs; all 8 NA flag combinations; DNS names of 1..4 labels of length 1 and 63; every DHCP option map of <=2 (thorough <=3) options from 12 codes x value lengths {0,1,4,255} x every parameter-request order of <=2 (thorough <=3) codes; composed Ether/IP/UDP frames over all ordered port pairs. distinct non-trivial = distinct encoded byte strings"
+	c.Res.Rule = "cartesian products of boundary alphabets: 4 MACs, 4 IPv4, 4 IPv6 addresses, {0,1,255,256,65535} for ports/ids/seq, ttl {0,1,64,255}, xid 4 values, every payload length 0..64 and the MTU boundary set (thorough: 0..300), buffer capacity {minimum-1, minimum, minimum+payload-1, minimum+payload, EthMaxSize} carved from a guarded array, Set and Append variants; ARP op x address pairs; all 8 NA flag combinations; DNS names of 0..4 labels of length 1 and 63 (decoded by an independent parser and by the library); every DHCP option map of <=2 (thorough <=3) options from 12 codes x value lengths {0,1,4,255} x every parameter-request order of <=2 (thorough <=3) codes; composed Ether/IP/UDP frames over all ordered port pairs. distinct non-trivial = distinct encoded byte strings"
 	c.Res.Assumptions = []string{"decoding is done by refnet (independent) and by the library's own views", "DHCP buffers are sized so that the encoding fits (the property quantifies over option maps whose encoding fits)"}
 	x := &c03ctx{c}
 	st := &c01State{}
@@ -737,9 +747,9 @@ func c03Run(c *core.Ctx, args []string) {
 		for _, id := range c03U16 {
 			for _, flags := range []uint16{0, 0x0100, 0x8000} {
 				for _, qt := range []uint16{1, 12, 28, 33, 255, 0x20, 0x21} {
-					for nl := 1; nl <= 4; nl++ {
+					for nl := 0; nl <= 4; nl++ { // 0 labels: the root name
 						for _, ll := range []int{1, 63} {
-							if nl*(ll+1) > 254 {
+							if nl*(ll+1) > 254 || (nl == 0 && ll != 1) {
 								continue
 							}
 							labels := make([]string, nl)
